@@ -9,10 +9,14 @@ import (
 	"encoding/json"
 	"fmt"
 	"hash"
+	"io"
 	"net"
 	"net/http"
 	"net/url"
+	"strconv"
 	"strings"
+	"sync"
+	"sync/atomic"
 	"time"
 
 	"verif/internal/check"
@@ -441,6 +445,68 @@ func partAuth(c *check.Ctx, a *acc) {
 		same("first-secret-issued-again")
 		set("")
 		same("secret-cleared-again")
+		// rotation storm: the secret flips A -> none -> B -> none ... as fast as the
+		// admin endpoint allows (the sequence a re-registration goes through) while
+		// 12 clients present tokens signed with the empty key and with a key that
+		// was never issued, on both endpoints. Whatever the timing, none of them
+		// verifies against any secret the server ever holds: any admission is a
+		// violation (a verification that read the secret twice, say).
+		{
+			var flips atomic.Int64
+			var fw sync.WaitGroup
+			fw.Add(1)
+			stormMS := c.Pick(1500, 8000)
+			go func() {
+				defer fw.Done()
+				resp, err := p.HTTP.Get(fmt.Sprintf("http://%s/verif/secretflip?ms=%d&a=rot-secret-A-0123456789&b=rot-secret-B-9876543210", p.Admin, stormMS))
+				if err == nil {
+					b, _ := io.ReadAll(resp.Body)
+					resp.Body.Close()
+					n, _ := strconv.Atoi(strings.TrimSpace(string(b)))
+					flips.Store(int64(n))
+				}
+			}()
+			stormEnd := time.Now().Add(time.Duration(stormMS) * time.Millisecond)
+			hdrJ := map[string]any{"alg": "HS256", "typ": "JWT"}
+			claims := map[string]any{"iss": "HDS", "app_key": "x", "exp": time.Now().Add(time.Hour).Unix()}
+			forged := []string{signJWT("HS256", "", hdrJ, claims), signJWT("HS256", "never-issued-secret", hdrJ, claims)}
+			var sent, admitted atomic.Int64
+			var cw sync.WaitGroup
+			for w := 0; w < 12; w++ {
+				cw.Add(1)
+				go func(w int) {
+					defer cw.Done()
+					for i := 0; time.Now().Before(stormEnd); i++ {
+						tk := forged[(w+i)%2]
+						hdr := http.Header{}
+						hdr.Set("Authorization", "Bearer "+tk)
+						var res authResult
+						var err error
+						if (w+i/2)%4 == 0 {
+							res, err = wsUpgrade(t.Addr, hdr, nil, "")
+						} else {
+							res, err = smokeTest(t.Addr, hdr, nil, "", `{"endpoint":"http://127.0.0.1:9","token":"t","timeout":1000000}`)
+						}
+						if err != nil {
+							continue
+						}
+						sent.Add(1)
+						if res.Admitted {
+							if admitted.Add(1) == 1 {
+								c.Report(c15f("admitted/without-valid-token", "rotation-storm", "while the secret was being rotated (A, none, B, none, ...) a request carrying a token signed with %s was admitted (%s): no secret the server ever held verifies it", map[bool]string{true: "the empty key", false: "a key that was never issued"}[(w+i)%2 == 0], res.Status))
+							}
+						}
+					}
+				}(w)
+			}
+			cw.Wait()
+			fw.Wait()
+			c.Coverage["rotation_storm_requests_with_forged_tokens"] = sent.Load()
+			c.Coverage["rotation_storm_secret_changes"] = flips.Load()
+			st.requests += int(sent.Load())
+			st.rejected += int(sent.Load() - admitted.Load())
+			set("")
+		}
 		p.Kill()
 	}
 	// ---- E7: the real binary behind a fake discovery service (mounting in cmd/main.go)
